@@ -22,7 +22,8 @@ from ..engine.dataflow import branch_facts, cond_facts
 from ..engine.taint import Taint, State
 from ..engine.callgraph import CallGraph
 from ..engine.report import RuleResult, Finding
-from .common import finding, try_context, handler_names, enclosing_map, operand_helper_calls
+from .common import finding, try_context, handler_names, enclosing_map, operand_helper_calls, \
+    established_class
 
 CODE = re.compile(r'^(?:err:)?([A-Z]{4}[0-9]{4})$')
 FACTORIES = {'error', 'xpath_error', 'wrong_syntax', 'wrong_type', 'wrong_value',
@@ -1039,6 +1040,11 @@ def r03_6(ctx, counts) -> RuleResult:
                     return coll_nodes(e.args[1], at, comp_env, seen)
                 if fn in ('set', 'list', 'dict') and not e.args:
                     return True
+                if isinstance(e.func, ast.Name):
+                    # a local helper (nested or module-level) annotated as returning nodes only
+                    for g in mod.functions.values():
+                        if g.name == fn and (g.parent is f or (g.parent is None and g.cls is None)):
+                            return ann_all_nodes(g.module, g.node.returns)
                 if isinstance(e.func, ast.Attribute):
                     recv = dotted(e.func.value).split('.')[-1]
                     if recv == 'context':
@@ -1260,8 +1266,11 @@ def r03_7(ctx, counts) -> RuleResult:
     # decimal.InvalidOperation has two causes: a zero divisor (x % 0, 0 // 0) and a quotient
     # with more digits than the context precision (10**41 % Decimal('1.5')). A handler that
     # covers it may answer "division by zero" only where the divisor is known to be zero.
+    def ops_may_raise(n: ast.AST) -> bool:
+        # arithmetic operators raise too (the try bodies here are a single `a // b`)
+        return calls_may_raise(n) or any(isinstance(x, ast.BinOp) for x in ast.walk(n))
     for f, syms in sorted(funcs.items(), key=lambda kv: kv[0].key):
-        cfg = CFG(f.node, calls_may_raise)
+        cfg = CFG(f.node, ops_may_raise)
         facts = branch_facts(cfg)
         for h in [x for x in ast.walk(f.node) if isinstance(x, ast.ExceptHandler)]:
             names = {nm.split('.')[-1] for nm in handler_names(model, f.module, h)}
@@ -1276,6 +1285,14 @@ def r03_7(ctx, counts) -> RuleResult:
                 holder = next((nd for nd in cfg.nodes if nd.ast is r), None)
                 if holder is not None and any(fa.startswith('+') and fa.endswith(' == 0')
                                               for fa in facts[holder.id]):
+                    conditional = True
+                # a merged handler that discriminates on the exception object: the raise sits
+                # under isinstance(err, <classes that exclude InvalidOperation>)
+                if holder is not None and h.name and any(
+                        fa.startswith(f'+isinstance({h.name}, ') and not any(
+                            k in fa for k in ('InvalidOperation', 'DecimalException',
+                                              'ArithmeticError', 'Exception'))
+                        for fa in facts[holder.id]):
                     conditional = True
                 res.instances.append(f'{f.key} [{"/".join(sorted(syms))}]: handler of '
                                      f'{sorted(names)} raises FOAR0001 only for a zero divisor='
@@ -1555,12 +1572,8 @@ def r03_9(ctx, counts) -> RuleResult:
                 continue
             # float(<Decimal>) never raises (it saturates to inf): a conversion inside
             # `if isinstance(x, Decimal):` is not an overflow site
-            if what == 'float()' and any(
-                    isinstance(enc, ast.If) and any(
-                        isinstance(t, ast.Call) and dotted(t.func) == 'isinstance' and len(t.args) == 2
-                        and isinstance(t.args[0], ast.Name) and {t.args[0].id} == names
-                        and stmt_text(t.args[1]).split('.')[-1] == 'Decimal'
-                        for t in ast.walk(enc.test)) for enc in emap[id(n)]):
+            if what == 'float()' and len(names) == 1 and \
+                    established_class(f.node, n, next(iter(names)), 'Decimal'):
                 continue
             n_ops += 1
             caught = False
@@ -1870,6 +1883,11 @@ def r03_13(ctx, counts) -> RuleResult:
     if len(funcs) < 2:
         raise AnalysisError(f'set operator functions located: {len(funcs)} < 2')
     n = 0
+    # closures nested in a set-operator function evaluate operands too
+    for f, syms in list(funcs.items()):
+        for g in f.module.functions.values():
+            if g.parent is f:
+                funcs.setdefault(g, set()).update(syms)
     for f, syms in sorted(funcs.items(), key=lambda kv: kv[0].key):
         cfg = CFG(f.node)
         facts = branch_facts(cfg)
@@ -2184,13 +2202,11 @@ def r03_17(ctx, counts) -> RuleResult:
         facts = branch_facts(cfg)
         emap = enclosing_map(f.node)
         promoted = set()
-        for st in walk_local(f.node):
-            if isinstance(st, ast.If) and 'isinstance(' in stmt_text(st.test) \
-                    and 'Decimal' in stmt_text(st.test):
-                for b in st.body:
-                    if isinstance(b, ast.Assign) and isinstance(b.targets[0], ast.Name) \
-                            and isinstance(b.value, ast.Call) and dotted(b.value.func) == 'float':
-                        promoted.add(b.targets[0].id)
+        for b in walk_local(f.node):
+            if isinstance(b, ast.Assign) and isinstance(b.targets[0], ast.Name) \
+                    and isinstance(b.value, ast.Call) and dotted(b.value.func) == 'float' \
+                    and established_class(f.node, b, b.targets[0].id, 'Decimal'):
+                promoted.add(b.targets[0].id)
         for nd in cfg.nodes:
             if nd.ast is None or nd.kind not in ('stmt', 'test'):
                 continue
